@@ -365,5 +365,51 @@ def oracle(c, o):
     return None
 
 
+def _q(x):
+    n, d = float(x).as_integer_ratio()
+    return [n, d]
+
+
+def model_request(c, o):
+    if "err" in o or c["kind"] not in ("mesh", "pointcloud"):
+        return None
+    M, M2 = np.array(c["M"], dtype=np.float64), np.array(c["M2"], dtype=np.float64)
+    if not (np.array_equal(M[3], [0, 0, 0, 1]) and np.array_equal(M2[3], [0, 0, 0, 1])) or not np.isfinite(M).all():
+        return None
+    if np.allclose(M, np.eye(4), atol=1e-7):
+        return None          # the documented identity shortcut: the library leaves the geometry alone
+    V0 = np.array(o["V0"], dtype=np.float64)
+    req = {"p": "C04", "L": [_q(x) for x in M[:3, :3].reshape(-1)], "t": [_q(x) for x in M[:3, 3]],
+           "points": [[_q(x) for x in p] for p in V0], "L2": [_q(x) for x in M2[:3, :3].reshape(-1)],
+           "t2": [_q(x) for x in M2[:3, 3]]}
+    if c["kind"] == "mesh":
+        T = V0[np.array(o["F0"])]
+        req["tris"] = [[[_q(x) for x in p] for p in t] for t in T]
+    return req
+
+
+def compare(c, o, m):
+    if "err" in m:
+        return "model error: " + str(m["err"])
+    from fractions import Fraction
+    f = lambda q: float(Fraction(q[0], q[1]))  # noqa
+    P = np.array([[f(x) for x in p] for p in m["points"]])
+    V = np.array(o["V"])
+    sc = max(1.0, float(np.abs(P).max()))
+    if P.shape != V.shape or np.abs(P - V).max() > 1e-9 * sc:
+        return f"transformed points differ from the model by {np.abs(P - V).max() if P.shape == V.shape else 'shape'}"
+    if c["kind"] == "mesh":
+        det, vol, vlin, vmov = f(m["det"]), f(m["vol"]), f(m["vol_linear"]), f(m["vol_moved"])
+        if Fraction(*m["vol_linear"]) != Fraction(*m["det"]) * Fraction(*m["vol"]):
+            return "model: volume of the linearly mapped triangles is not det * volume"
+        if o["watertight"] and abs(abs(vmov) - abs(o["volume"])) > 1e-9 * max(1.0, abs(vmov)) * sc ** 2:
+            return f"volume after the transform: model {abs(vmov)} impl {o['volume']}"
+        if o["watertight"] and not c.get("com_override") and abs(vmov) > 1e-12:
+            cm = np.array([f(x) for x in m["first_moved"]]) / vmov
+            if np.abs(cm - np.array(o["center_mass"])).max() > 1e-7 * sc:
+                return f"center of mass after the transform: model {cm.tolist()} impl {o['center_mass']}"
+    return None
+
+
 def nontrivial(c, o):
     return c["cls"] not in ("near_identity",) and "err" not in o
